@@ -24,7 +24,7 @@ func TestVerif_C08(t *testing.T) {
 		agg.report(r)
 		return
 	}
-	n := r.N(2400, 120000)
+	n := r.N(2400, 60000)
 	r.Parallel(n, func(i int) {
 		e2Guarded(r, "C08/case", func() { e2RunTrace(r, "C08", i, agg, "C08:") })
 	})
